@@ -143,7 +143,9 @@ Section Prog.
     end.
   Definition del_int (l : list (nat * (nat * stack))) (n : nat) : list (nat * (nat * stack)) :=
     filter (fun x => negb (Nat.eqb (fst x) n)) l.
+  (* _register_interrupt: a Watch / Alarm inside a block that has ended is not registered (it ended with its block) *)
   Definition register_interrupt (s : S) (n : nat) : S :=
+    if in_ended_block s n then s else
     let s1 := with_ints s (put_int (ints s) n (serial s, [FVisit n])) (Datatypes.S (serial s)) in
     set_ns s1 n (set_cond (st s1 n) (activated (st s1 n)) true (run_count (st s1 n))).
   Definition unregister_interrupt (s : S) (n : nat) : S :=
